@@ -24,7 +24,9 @@ EXTENDS Cells, TLC, Json
 
 CONSTANTS BaseWorld,  \* the base world (geometry + tagged face variables)
           MaxObjs, MaxMasks, MaxConvs, Depth,
-          VarChoices  \* sets of variable names that select_variables may be asked for
+          VarChoices, \* sets of variable names that select_variables may be asked for
+          MaskSizes,  \* sizes of the hit sets tried by MakeMask
+          MaxFiles, MaxOff
 
 VARIABLES B,          \* the base world, fixed by Init (a variable only so that it is read from its file once)
           objs,       \* Seq of dataset views (position = object id)
@@ -33,7 +35,7 @@ VARIABLES B,          \* the base world, fixed by Init (a variable only so that 
           convs,      \* Seq of [obj] : convention objects (all of the detected class)
           out, hist
 vars == <<B, objs, masks, files, convs, out, hist>>
-view == <<objs, masks, files, convs, out>>
+view == <<objs, masks, files, convs>>
 
 IsGrid == ~IsUGrid(B)
 NFace == FaceCount(B)
@@ -67,6 +69,14 @@ Access(o) ==
           /\ objs' = [objs EXCEPT ![o].bound = Len(convs) + 1, ![o].cached = Len(convs) + 1]
           /\ out' = [a |-> "Access", obj |-> o, conv |-> Len(convs) + 1]
 
+\* Every operation reached through `dataset.ems` first goes through the accessor: Touched(o) is <<objs, convs>> after
+\* that implicit access (the dataset is bound to a fresh convention object unless it already has one)
+Touched(o) ==
+  IF objs[o].cached # 0 THEN <<objs, convs>>
+  ELSE IF objs[o].bound # 0 THEN <<[objs EXCEPT ![o].cached = objs[o].bound], convs>>
+  ELSE <<[objs EXCEPT ![o].bound = Len(convs) + 1, ![o].cached = Len(convs) + 1], Append(convs, [obj |-> o])>>
+CanTouch(o) == objs[o].bound # 0 \/ Len(convs) < MaxConvs
+
 Copy(o) ==
   /\ o \in Live /\ Len(objs) < MaxObjs /\ Log([a |-> "Copy", obj |-> o])
   /\ objs' = Append(objs, [objs[o] EXCEPT !.bound = 0, !.cached = 0])
@@ -78,12 +88,14 @@ Copy(o) ==
 MakeMask(o, F) ==
   /\ o \in Live /\ Len(masks) < MaxMasks /\ F # {} /\ F \subseteq (objs[o].sel \cap ValidCells(B))
   /\ Log([a |-> "MakeMask", obj |-> o, F |-> F])
+  /\ CanTouch(o)
   /\ masks' = Append(masks, [cells |-> objs[o].cells, win |-> objs[o].win, sel |-> F])
   /\ out' = [a |-> "MakeMask", mask |-> Len(masks) + 1]
-  /\ UNCHANGED <<objs, files, convs>>
+  /\ objs' = Touched(o)[1] /\ convs' = Touched(o)[2]
+  /\ UNCHANGED files
 
 SaveMask(m) ==
-  /\ m \in 1..Len(masks) /\ Len(files) < 2 /\ Log([a |-> "SaveMask", mask |-> m])
+  /\ m \in 1..Len(masks) /\ Len(files) < MaxFiles /\ Log([a |-> "SaveMask", mask |-> m])
   /\ files' = Append(files, [kind |-> "mask", mask |-> masks[m]])
   /\ out' = [a |-> "SaveMask", file |-> Len(files) + 1] /\ UNCHANGED <<objs, masks, convs>>
 LoadMask(f) ==
@@ -111,28 +123,33 @@ ApplyMask(o, m) ==
          new == IF IsGrid
                 THEN [v EXCEPT !.win = BBoxOf(F), !.cells = WindowCells(BBoxOf(F)), !.sel = v.sel \cap F, !.bound = 0, !.cached = 0]
                 ELSE [v EXCEPT !.cells = SelectSeq(v.cells, LAMBDA n : n \in F), !.sel = v.sel \cap F, !.bound = 0, !.cached = 0]
-     IN objs' = Append(objs, new)
+     IN objs' = Append(Touched(o)[1], new)
+  /\ CanTouch(o) /\ convs' = Touched(o)[2]
   /\ out' = [a |-> "ApplyMask", new |-> Len(objs) + 1]
-  /\ UNCHANGED <<masks, files, convs>>
+  /\ UNCHANGED <<masks, files>>
 
 \* ------------------------------------------------------------- other derivations
 SelectVariables(o, vs) ==
   /\ o \in Live /\ Len(objs) < MaxObjs /\ vs \subseteq objs[o].vars
   /\ Log([a |-> "SelectVariables", obj |-> o, names |-> vs])
-  /\ objs' = Append(objs, [objs[o] EXCEPT !.vars = vs, !.bound = 0, !.cached = 0])
+  /\ CanTouch(o)
+  /\ objs' = Append(Touched(o)[1], [objs[o] EXCEPT !.vars = vs, !.bound = 0, !.cached = 0])
+  /\ convs' = Touched(o)[2]
   /\ out' = [a |-> "SelectVariables", new |-> Len(objs) + 1]
-  /\ UNCHANGED <<masks, files, convs>>
+  /\ UNCHANGED <<masks, files>>
 
 \* dataset[name] = dataset[name] + k for every data variable, in place: same object, same binding
 Mutate(o, k) ==
-  /\ o \in Live /\ objs[o].off < 2 /\ Log([a |-> "Mutate", obj |-> o, k |-> k])
+  /\ o \in Live /\ objs[o].off < MaxOff /\ Log([a |-> "Mutate", obj |-> o, k |-> k])
   /\ objs' = [objs EXCEPT ![o].off = @ + k]
   /\ out' = [a |-> "Mutate", obj |-> o] /\ UNCHANGED <<masks, files, convs>>
 
 Save(o) ==
-  /\ o \in Live /\ Len(files) < 2 /\ Log([a |-> "Save", obj |-> o])
+  /\ o \in Live /\ Len(files) < MaxFiles /\ Log([a |-> "Save", obj |-> o])
+  /\ CanTouch(o)
   /\ files' = Append(files, [kind |-> "ds", view |-> [objs[o] EXCEPT !.bound = 0, !.cached = 0]])
-  /\ out' = [a |-> "Save", file |-> Len(files) + 1] /\ UNCHANGED <<objs, masks, convs>>
+  /\ objs' = Touched(o)[1] /\ convs' = Touched(o)[2]
+  /\ out' = [a |-> "Save", file |-> Len(files) + 1] /\ UNCHANGED masks
 Open(f) ==
   /\ f \in 1..Len(files) /\ files[f].kind = "ds" /\ Len(objs) < MaxObjs /\ Log([a |-> "Open", file |-> f])
   /\ objs' = Append(objs, files[f].view)
@@ -141,17 +158,18 @@ Open(f) ==
 Next ==
   /\ Len(hist) < Depth /\ UNCHANGED B
   /\ \/ \E o \in Live : Access(o) \/ Copy(o) \/ Save(o) \/ Mutate(o, 1)
-     \/ \E o \in Live : \E F \in SUBSET objs[o].sel : Cardinality(F) \in {1, 2, 3} /\ MakeMask(o, F)
+     \/ \E o \in Live : \E F \in SUBSET objs[o].sel : Cardinality(F) \in MaskSizes /\ MakeMask(o, F)
      \/ \E m \in 1..MaxMasks : SaveMask(m)
-     \/ \E f \in 1..2 : LoadMask(f) \/ Open(f)
+     \/ \E f \in 1..MaxFiles : LoadMask(f) \/ Open(f)
      \/ \E o \in Live : \E m \in 1..MaxMasks : ApplyMask(o, m)
      \/ \E o \in Live : \E vs \in VarChoices : SelectVariables(o, vs)
 Spec == Init /\ [][Next]_vars
 
 \* ------------------------------------------------------------- what a view shows
 PolyOf(v, pos) == PolyAt(B, v.cells[pos])
+\* (a variable that cannot represent a missing value -- fillkind "none" -- is cropped but never blanked)
 ValueOf(v, var, ex, pos) ==
-  IF v.cells[pos] \in v.sel THEN Shift(Tag(B, var, ex, v.cells[pos]), v.off) ELSE MISSING
+  IF v.cells[pos] \in v.sel \/ var.fillkind = "none" THEN Shift(Tag(B, var, ex, v.cells[pos]), v.off) ELSE MISSING
 
 \* ------------------------------------------------------------- system invariants
 \* every view is a well-formed dataset of the same convention: cells are distinct original cells, in the original order
